@@ -270,6 +270,12 @@ class SpecEval:
             fn = sym.uf("ghost_" + f, *([g.sort() for g in gargs] + [sym.F if f.startswith("flt_") else I]))
             return fn(*gargs)
         args = [self.ev(a, env) for a in n.args]
+        if f.startswith("P_"):
+            # the boolean result of the pure function <name> of the code (the same uninterpreted predicate the code side
+            # uses for a callee whose contract says pure="uf")
+            ts = [a if (a.sort() == sym.F or z3.is_bool(a)) else self.int(a) for a in args]
+            return sym.uf("call_%s_%s" % (f[2:], "".join("F" if t.sort() == sym.F else "I" for t in ts)),
+                          *([t.sort() for t in ts] + [sym.B]))(*ts)
         if f == "implies":
             return z3.Implies(self.bool(args[0]), self.bool(args[1]))
         if f == "iff":
